@@ -20,7 +20,7 @@ class Ctx:
 
 
 def terminates(body):
-    return bool(body) and isinstance(body[-1], (ast.Return, ast.Raise, ast.Continue, ast.Break))
+    return bool(body) and (isinstance(body[-1], (ast.Return, ast.Raise, ast.Continue, ast.Break)) or type(body[-1]).__name__ == 'InlineExit')
 
 
 class Summary:
@@ -84,6 +84,7 @@ class Esc:
         allargs = a.posonlyargs + a.args + a.kwonlyargs
         tuple_params = set()
         dict_names = set()
+        dictkinds = {}       # local dict -> name kind of its keys (from `d[k] = v` stores), copied along `d2 = d`
         if a.kwarg:
             dict_names.add(a.kwarg.arg)
         for arg in allargs:
@@ -604,6 +605,11 @@ class Esc:
                     kinds.pop(v, None)
                 if isinstance(s.value, (ast.Dict, ast.DictComp)):
                     dict_names.add(v)
+                if isinstance(s.value, ast.Name) and s.value.id in dictkinds:
+                    dictkinds[v] = dictkinds[s.value.id]
+                elif isinstance(s.value, ast.Call) and isinstance(s.value.func, ast.Attribute) and s.value.func.attr == 'copy' \
+                        and isinstance(s.value.func.value, ast.Name) and s.value.func.value.id in dictkinds:
+                    dictkinds[v] = dictkinds[s.value.func.value.id]
                 nullable_vars[v] = is_nullable(s.value) if isinstance(s.value, (ast.Attribute, ast.Name)) else False
                 nonnull.discard(v)
                 # trie steps
@@ -611,6 +617,11 @@ class Esc:
                         and s.value.func.attr in ('longest_prefix', 'shortest_prefix') \
                         and isinstance(s.value.func.value, ast.Attribute) and (m, s.value.func.value.attr) in TRIE_VALUES:
                     step_tries[v] = TRIE_VALUES[(m, s.value.func.value.attr)]
+            if isinstance(s, ast.Assign) and len(s.targets) == 1 and isinstance(s.targets[0], ast.Subscript) \
+                    and isinstance(s.targets[0].value, ast.Name):
+                k_ = kind_of_arg(s.targets[0].slice)
+                if k_:
+                    dictkinds[s.targets[0].value.id] = k_
             if isinstance(s, ast.Assign) and len(s.targets) == 1 and isinstance(s.targets[0], ast.Tuple) \
                     and isinstance(s.value, ast.Call):
                 r = P.resolve(m, s.value.func)
@@ -634,6 +645,11 @@ class Esc:
         def stmt(s, hs):
             nonlocal nonnull
             if isinstance(s, FuncT + (ast.ClassDef,)):
+                return
+            if type(s).__name__ == 'InlineBlock':      # expanded helper body (sa/inline.py): a plain sequence for this analysis
+                block(s.body, hs)
+                return
+            if type(s).__name__ == 'InlineExit':
                 return
             if isinstance(s, ast.Raise):
                 if s.exc is not None:
@@ -717,6 +733,17 @@ class Esc:
                         nullable_vars.pop(tn.id, None)
                 if et and isinstance(s.target, ast.Name):
                     env[s.target.id] = et
+                # keys of a local dict keep the name kind they were stored with
+                it_ = s.iter
+                dn = None
+                if isinstance(it_, ast.Name):
+                    dn = it_.id
+                elif isinstance(it_, ast.Call) and isinstance(it_.func, ast.Attribute) and it_.func.attr in ('items', 'keys') and isinstance(it_.func.value, ast.Name):
+                    dn = it_.func.value.id
+                if dn in dictkinds:
+                    kt = s.target.elts[0] if isinstance(s.target, ast.Tuple) and it_ is not None and isinstance(it_, ast.Call) and it_.func.attr == 'items' else s.target
+                    if isinstance(kt, ast.Name):
+                        kinds[kt.id] = dictkinds[dn]
                 if isinstance(s.iter, ast.Call) and isinstance(s.iter.func, ast.Attribute) \
                         and s.iter.func.attr in ('prefixes', 'itervalues', 'values') \
                         and isinstance(s.iter.func.value, ast.Attribute) and (m, s.iter.func.value.attr) in TRIE_VALUES:
